@@ -166,6 +166,11 @@ func c14parseVia(c *core.Ctx, r *rand.Rand, text string) (s avro.Schema, entry s
 	case 2:
 		entry = "json.Unmarshal of a byte slice"
 		buf := []byte(text)
+		if c14usedTick++; c14usedTick%2 == 0 {
+			// the destination is a variable that already holds another schema (a loop over documents with one variable)
+			entry = "json.Unmarshal of a byte slice into a Schema variable that holds another schema"
+			jsonx.Unmarshal([]byte(c14earlier[c14usedTick/2%len(c14earlier)]), &s)
+		}
 		err = jsonx.Unmarshal(buf, &s)
 		for i := range buf {
 			buf[i] = 'x'
@@ -205,6 +210,16 @@ func c14parseVia(c *core.Ctx, r *rand.Rand, text string) (s avro.Schema, entry s
 		runtime.GC()
 	}
 	return
+}
+
+var c14usedTick int
+var c14earlier = []string{
+	`["null","string"]`,
+	`{"type":"record","name":"earlier","namespace":"e.ns","fields":[{"name":"a","type":{"type":"long","logicalType":"timestamp-millis"}},{"name":"b","type":["null",{"type":"fixed","name":"fx","size":7}]}]}`,
+	`{"type":"array","items":{"type":"map","values":"double"}}`,
+	`{"type":"enum","name":"en","symbols":["A","B"]}`,
+	`{"type":"long","logicalType":"timestamp-micros"}`,
+	`"bytes"`,
 }
 
 // c14pieces hands out the text in pieces of n bytes.
